@@ -19,6 +19,7 @@ mod c29;
 mod c30;
 mod c31;
 mod c34;
+mod c19;
 mod c20;
 mod c24;
 mod c35;
@@ -76,6 +77,8 @@ fn main() {
         "c31-child" => c31::child(rest),
         "c31-drive" => c31::drive(rest),
         "c34-replay" => c34::replay(rest),
+        "c19-replay" => c19::replay(rest),
+        "c19-big" => c19::big(rest),
         "c20-replay" => c20::replay(rest),
         "c21-replay" => c20::replay_update(rest),
         "c24-run" => c24::run(rest),
